@@ -118,7 +118,11 @@ fn oscat_docs() -> Vec<(String, String)> {
             "FUNCTION_BLOCK Fb\n(*@KEY@:DESCRIPTION*)\n{}\n(*@KEY@:END_DESCRIPTION*)\nVAR\n  a : INT; (* after \u{e9} *)\nEND_VAR\n  a := 1;\nEND_FUNCTION_BLOCK\n",
             body
         );
-        out.push((format!("oscat-header/{}", name), text));
+        out.push((format!("oscat-header/{}", name), text.clone()));
+        out.push((format!("oscat-header-crlf/{}", name), text.replace('\n', "\r\n")));
+        // the description on the same line as the keys, and a second header later in the file
+        out.push((format!("oscat-header-one-line/{}", name), text.replace("(*@KEY@:DESCRIPTION*)\n", "(*@KEY@:DESCRIPTION*) ").replace("\n(*@KEY@:END_DESCRIPTION*)", " (*@KEY@:END_DESCRIPTION*)")));
+        out.push((format!("oscat-header-twice/{}", name), format!("{}{}", text, text.replace("FUNCTION_BLOCK Fb", "FUNCTION_BLOCK Fb2"))));
     }
     out
 }
